@@ -364,6 +364,14 @@ def run(ctx: Any, prog: Program) -> None:
         if k.startswith('self._') and k[6:] in SLOTS:
             return 'M_' + k[6:]
         return k
+    # asin / acos have the domain [-1, 1]; an entry of a *product* of rotations is only within rounding of it (1.0000000000000002 happens for
+    # products that land on the gimbal pole), so an unclamped asin(entry) raises ValueError for some rotations while atan2 is total
+    for c_ in ast.walk(ta):
+        if isinstance(c_, ast.Call) and (dotted(c_.func) or '').split('.')[-1] in ('asin', 'acos') and c_.args:
+            a_ = c_.args[0]
+            clamped = isinstance(a_, ast.Call) and dotted(a_.func) in ('max', 'min') and any(isinstance(x, ast.Call) and dotted(x.func) in ('max', 'min') for x in a_.args)
+            ctx.check('C04.A5', clamped, mt, c_, f'_to_angle takes `{U(c_)[:50]}` of an unclamped matrix entry: for a rotation obtained by multiplying matrices the entry can round to just outside [-1, 1] '
+                      '(e.g. Angle(225, 0, 0) @ Angle(225, 0, 0)) and the call raises "math domain error" instead of returning the angle', func='MatrixBase._to_angle', text=f'_to_angle: `{U(c_)[:30]}` total')
     a5_python = analyse_to_angle(ctx, 'C04.A5', mt.relpath, 'MatrixBase._to_angle', body_of(ta), ren_ta, FA,
                                  {'yaw': 'ang._yaw', 'pitch': 'ang._pitch', 'roll': 'ang._roll'}, mt, ta)
 
@@ -991,6 +999,7 @@ def analyse_to_angle(ctx: Any, rule: str, relpath: str, qual: str, body: List[as
 
 
 MUTANTS = [
+    {'id': 'to_angle_pitch_by_asin', 'file': 'math.py', 'find': "        if horiz_dist > 0.001:\n            ang._yaw = math.degrees(math.atan2(for_y, for_x)) % 360.0 % 360.0\n            ang._pitch = math.degrees(math.atan2(-for_z, horiz_dist)) % 360.0 % 360.0", 'replace': "        if horiz_dist > 0.001:\n            ang._yaw = math.degrees(math.atan2(for_y, for_x)) % 360.0 % 360.0\n            ang._pitch = math.degrees(math.asin(-for_z)) % 360.0 % 360.0", 'expect': 'C04.A5'},
     {'id': 'imatmul_staged_pitch_backwards', 'file': 'math.py', 'find': '            self._mat_mul(Py_Matrix.from_angle(other))\n', 'replace': '            if other._roll != 0.0:\n                rad = math.radians(other._roll)\n                cos, sin = math.cos(rad), math.sin(rad)\n                self._ab, self._ac = self._ab * cos - self._ac * sin, self._ab * sin + self._ac * cos\n                self._bb, self._bc = self._bb * cos - self._bc * sin, self._bb * sin + self._bc * cos\n                self._cb, self._cc = self._cb * cos - self._cc * sin, self._cb * sin + self._cc * cos\n            if other._pitch != 0.0:\n                rad = math.radians(other._pitch)\n                cos, sin = math.cos(rad), math.sin(rad)\n                self._aa, self._ac = self._aa * cos - self._ac * sin, self._aa * sin + self._ac * cos\n                self._ba, self._bc = self._ba * cos - self._bc * sin, self._ba * sin + self._bc * cos\n                self._ca, self._cc = self._ca * cos - self._cc * sin, self._ca * sin + self._cc * cos\n            if other._yaw != 0.0:\n                rad = math.radians(other._yaw)\n                cos, sin = math.cos(rad), math.sin(rad)\n                self._aa, self._ab = self._aa * cos - self._ab * sin, self._aa * sin + self._ab * cos\n                self._ba, self._bb = self._ba * cos - self._bb * sin, self._ba * sin + self._bb * cos\n                self._ca, self._cb = self._ca * cos - self._cb * sin, self._ca * sin + self._cb * cos\n', 'expect': 'C04.A4'},
     {'id': 'ok_imatmul_staged_in_place', 'file': 'math.py', 'find': '            self._mat_mul(Py_Matrix.from_angle(other))\n', 'replace': '            if other._roll != 0.0:\n                rad = math.radians(other._roll)\n                cos, sin = math.cos(rad), math.sin(rad)\n                self._ab, self._ac = self._ab * cos - self._ac * sin, self._ab * sin + self._ac * cos\n                self._bb, self._bc = self._bb * cos - self._bc * sin, self._bb * sin + self._bc * cos\n                self._cb, self._cc = self._cb * cos - self._cc * sin, self._cb * sin + self._cc * cos\n            if other._pitch != 0.0:\n                rad = math.radians(other._pitch)\n                cos, sin = math.cos(rad), math.sin(rad)\n                self._ac, self._aa = self._ac * cos - self._aa * sin, self._ac * sin + self._aa * cos\n                self._bc, self._ba = self._bc * cos - self._ba * sin, self._bc * sin + self._ba * cos\n                self._cc, self._ca = self._cc * cos - self._ca * sin, self._cc * sin + self._ca * cos\n            if other._yaw != 0.0:\n                rad = math.radians(other._yaw)\n                cos, sin = math.cos(rad), math.sin(rad)\n                self._aa, self._ab = self._aa * cos - self._ab * sin, self._aa * sin + self._ab * cos\n                self._ba, self._bb = self._ba * cos - self._bb * sin, self._ba * sin + self._bb * cos\n                self._ca, self._cb = self._ca * cos - self._cb * sin, self._ca * sin + self._cb * cos\n', 'expect': None},
     {'id': 'ok_angle_matrix_shared_helper', 'file': 'math.py', 'find': "    def __matmul__(self, other: 'MatrixBase | AngleBase') -> Self:\n        if isinstance(other, MatrixBase):\n            rot = other", 'replace': "    def _ang_rot(self, source: 'AngleBase', dest: AngleT) -> AngleT:\n        mat = Py_Matrix.from_angle(source)\n        mat._mat_mul(self)\n        return mat._to_angle(dest)\n\n    def __matmul__(self, other: 'MatrixBase | AngleBase') -> Self:\n        if isinstance(other, MatrixBase):\n            rot = other", 'extra': [{'file': 'math.py', 'find': "        elif isinstance(other, MatrixBase):\n            mat = Py_Matrix.from_angle(self)\n            mat._mat_mul(other)\n            cls = type(self)\n            return mat._to_angle(cls.__new__(cls))", 'replace': "        elif isinstance(other, MatrixBase):\n            cls = type(self)\n            return other._ang_rot(self, cls.__new__(cls))"}], 'expect': None},
